@@ -3,6 +3,7 @@ import GoCrypt.Props.C07
 import GoCrypt.Props.C14
 import GoCrypt.Props.C15
 import GoCrypt.Model.Scheme
+import GoCrypt.Props.EndToEnd
 
 /-!
 # C01 — a freshly generated hash verifies with the password it was made from
@@ -53,5 +54,40 @@ theorem default_salt_lengths_ok :
 -- the generated salt's length/alphabet as a function of entropy
 #print axioms GoCrypt.C15.randSymbols_length
 #print axioms GoCrypt.C15.randSymbols_in_alphabet
+-- END TO END (model): the string NewHash returns verifies with the password it was made from, for every request;
+-- NewHash succeeds with a non-empty hash whenever Key returns a key of the documented length (and on the whole domain where totality of the KDF is proved)
+#print axioms GoCrypt.EndToEnd.newHash_then_check_md5
+#print axioms GoCrypt.EndToEnd.newHash_then_check_sha1
+#print axioms GoCrypt.EndToEnd.newHash_then_check_sha256
+#print axioms GoCrypt.EndToEnd.newHash_then_check_sha512
+#print axioms GoCrypt.EndToEnd.newHash_then_check_nthash
+#print axioms GoCrypt.EndToEnd.newHash_then_check_des
+#print axioms GoCrypt.EndToEnd.newHash_then_check_desext
+#print axioms GoCrypt.EndToEnd.newHash_then_check_bcrypt
+#print axioms GoCrypt.EndToEnd.newHash_then_check_sunmd5
+#print axioms GoCrypt.EndToEnd.newHash_then_check_argon2
+#print axioms GoCrypt.EndToEnd.newHash_then_check_argon2'
+#print axioms GoCrypt.EndToEnd.newHash_ok_md5
+#print axioms GoCrypt.EndToEnd.newHash_ok_sha1
+#print axioms GoCrypt.EndToEnd.newHash_ok_sha256
+#print axioms GoCrypt.EndToEnd.newHash_ok_sha512
+#print axioms GoCrypt.EndToEnd.newHash_ok_nthash
+#print axioms GoCrypt.EndToEnd.newHash_ok_des
+#print axioms GoCrypt.EndToEnd.newHash_ok_desext
+#print axioms GoCrypt.EndToEnd.newHash_ok_bcrypt
+#print axioms GoCrypt.EndToEnd.newHash_ok_sunmd5
+#print axioms GoCrypt.EndToEnd.newHash_ok_argon2
+#print axioms GoCrypt.EndToEnd.newHash_total_md5
+#print axioms GoCrypt.EndToEnd.newHash_total_sha1
+#print axioms GoCrypt.EndToEnd.newHash_total_sha256
+#print axioms GoCrypt.EndToEnd.newHash_total_sha512
+#print axioms GoCrypt.EndToEnd.newHash_total_nthash
+#print axioms GoCrypt.EndToEnd.newHash_total_des
+#print axioms GoCrypt.EndToEnd.newHash_total_desext
+#print axioms GoCrypt.EndToEnd.newHash_total_sunmd5
+#print axioms GoCrypt.EndToEnd.newHash_total_argon2
+#print axioms GoCrypt.EndToEnd.newHash_empty_iff_md5
+#print axioms GoCrypt.EndToEnd.newHash_empty_iff_des
+#print axioms GoCrypt.EndToEnd.argon2_digest_length
 
 end GoCrypt.C01
